@@ -76,4 +76,162 @@ theorem execList_wrap (n : Nat) (s : St) (c : Cmd) (ht : (execCmd n s c).1.trapD
   obtain ⟨s1, r⟩ := x
   cases r <;> simp
 
+theorem execItem_andor (f : Nat) (s : St) (a : Pipeline) (r : Bool × Pipeline) (rest : List (Bool × Pipeline)) :
+    execItem (f+1) s (.mk a (r :: rest)) =
+      match execPipeline f (s.push .condition) a with
+      | (s1, .continue_) => execAndOrRest f s1 (r :: rest)
+      | (s1, res) => (s1.pop, res) := by
+  simp only [execItem]
+  generalize execPipeline f (s.push .condition) a = x
+  obtain ⟨s1, res⟩ := x
+  cases res <;> rfl
+
+theorem execAndOrRest_last (f : Nat) (s : St) (op : Bool) (p : Pipeline) :
+    execAndOrRest (f+1) s [(op, p)] =
+      if (s.pop.status = 0) = op then execPipeline f s.pop p else (s.pop, .continue_) := by
+  simp [execAndOrRest]
+
+theorem execAndOrRest_more (f : Nat) (s : St) (op : Bool) (p : Pipeline) (q : Bool × Pipeline)
+    (rest : List (Bool × Pipeline)) :
+    execAndOrRest (f+1) s ((op, p) :: q :: rest) =
+      if (s.status = 0) = op then
+        match execPipeline f s p with
+        | (s1, .continue_) => execAndOrRest f s1 (q :: rest)
+        | (s1, r) => (s1.pop, r)
+      else execAndOrRest f s (q :: rest) := by
+  simp only [execAndOrRest]
+  split
+  · generalize execPipeline f s p = x
+    obtain ⟨s1, r⟩ := x
+    cases r <;> rfl
+  · rfl
+
+/-- a pipeline that is one brace group around one and-or list: the list, then the poll that ends the command -/
+theorem execPipeline_group (f : Nat) (s : St) (it : Item) :
+    execPipeline (f+4) s (.mk false [.group [it]]) =
+      pollWith (execList (f+2)) (execItem f s it).1 (execItem f s it).2 := by
+  have hx : execCmd (f+2) s (.group [it]) = execItem f s it := by
+    simp only [execCmd, execList]
+    cases f with
+    | zero => simp [execItem]
+    | succ f =>
+      generalize execItem (f+1) s it = y
+      obtain ⟨s1, r⟩ := y
+      cases r <;> simp [execList]
+  simp only [execPipeline, execCommands, Bool.not_false, if_true, hx]
+
+/-- the condition `p` of a loop, and `! p` -/
+def condPos (cmds : List Cmd) : List Item := [.mk (.mk false cmds) []]
+def condNeg (cmds : List Cmd) : List Item := [.mk (.mk true cmds) []]
+
+/-- what `!` does to a completed condition -/
+def flipStatus : St × Res → St × Res
+  | (t, .continue_) => ({ t with status := if t.status = 0 then 1 else 0 }, .continue_)
+  | x => x
+
+theorem cond_neg_is_flip (f : Nat) (t : St) (st : List Frame) (cmds : List Cmd)
+    (hst : t.stack = .condition :: st) :
+    execList f t (condNeg cmds) = flipStatus (execList f t (condPos cmds)) := by
+  match f with
+  | 0 => simp [execList, flipStatus]
+  | 1 => simp [execList, execItem, condNeg, condPos, flipStatus]
+  | 2 => simp [execList, execItem, execPipeline, condNeg, condPos, flipStatus]
+  | f+3 =>
+    have hcc := cmds_ctx_only f t (.condition :: t.stack) cmds
+      (by rw [hst]; exact ctxOf_cond_cond st)
+    have hb := (bal f).cmds t cmds
+    have hpush : t.push .condition = { t with stack := .condition :: t.stack } := rfl
+    simp only [condNeg, condPos, execList, execItem, execPipeline, Bool.not_true, Bool.not_false,
+      Bool.false_eq_true, if_false, if_true, hpush, hcc]
+    generalize execCommands f t cmds = x at hb ⊢
+    obtain ⟨t1, r⟩ := x
+    simp only at hb
+    have hu : ({ t1 with stack := .condition :: t.stack } : St).pop = t1 := by
+      cases t1; simp_all [St.pop]
+    cases r <;> simp [hu, flipStatus]
+
+/-- how `while_loop::execute` turns the loop's result into the command's -/
+def whilePost : St × (Res × Nat) → St × Res
+  | (s1, (.continue_, e)) => ({ s1 with status := e }, .continue_)
+  | (s1, (r, _)) => (s1, r)
+
+theorem until_while_post (cmds : List Cmd) (body : List Item)
+    (hbody : ∀ (g : Nat) (t : St) (k : Nat), (execList g t body).2 ≠ .outOfFuel →
+      execList g { t with status := k } body = execList g t body) :
+    ∀ (f : Nat) (s : St) (e : Nat), (whilePost (execWhile f s true (condPos cmds) body e)).2 ≠ .outOfFuel →
+      whilePost (execWhile f s true (condPos cmds) body e) = whilePost (execWhile f s false (condNeg cmds) body e) := by
+  intro f
+  induction f with
+  | zero => intro s e; simp [execWhile, whilePost]
+  | succ f ih =>
+    intro s e
+    simp only [execWhile]
+    rw [cond_neg_is_flip f (s.push .condition) s.stack cmds rfl]
+    generalize execList f (s.push .condition) (condPos cmds) = x
+    obtain ⟨s1, r⟩ := x
+    cases r with
+    | outOfFuel => simp [flipStatus, loopStep, whilePost]
+    | break_ d =>
+      simp only [flipStatus]
+      cases d with
+      | continue_ k =>
+        cases k with
+        | zero => simp only [loopStep]; exact ih _ _
+        | succ k => simp [loopStep, whilePost]
+      | break_ k => cases k <;> simp [loopStep, whilePost]
+      | _ => simp [loopStep, whilePost]
+    | continue_ =>
+      simp only [flipStatus, loopStep]
+      have hpf : ({ s1 with status := (if s1.status = 0 then 1 else 0) } : St).pop =
+          { s1.pop with status := if s1.pop.status = 0 then 1 else 0 } := rfl
+      simp only [hpf]
+      generalize s1.pop = u
+      by_cases h0 : u.status = 0
+      · -- the condition succeeded: `until` ends, and so does `while !`
+        simp [h0, whilePost]
+      · simp only [h0, if_false]
+        rw [if_pos (by simp), if_pos (by simp)]
+        by_cases hoof : (execList f u body).2 = .outOfFuel
+        · intro hne
+          exfalso; apply hne
+          generalize execList f u body = y at hoof
+          obtain ⟨s2, r2⟩ := y
+          simp only at hoof; subst hoof
+          simp [loopStep, whilePost]
+        · rw [hbody f u 0 hoof]
+          generalize execList f u body = y
+          obtain ⟨s2, r2⟩ := y
+          cases r2 with
+          | outOfFuel => simp [whilePost]
+          | continue_ => simp only; exact ih _ _
+          | break_ d =>
+            cases d with
+            | continue_ k =>
+              cases k with
+              | zero => simp only; exact ih _ _
+              | succ k => simp [whilePost]
+            | break_ k => cases k <;> simp [whilePost]
+            | _ => simp [whilePost]
+
+theorem execCmd_while_post (f : Nat) (s : St) (u : Bool) (c b : List Item) :
+    execCmd (f+1) s (.whileLoop u c b) =
+      ((whilePost (execWhile f (s.push .loop) u c b 0)).1.pop, (whilePost (execWhile f (s.push .loop) u c b 0)).2) := by
+  simp only [execCmd]
+  generalize execWhile f (s.push .loop) u c b 0 = x
+  obtain ⟨s1, r, e⟩ := x
+  cases r <;> simp [whilePost, St.pop]
+
+/-- a list that begins with a command setting `$?` does not depend on the `$?` it starts with -/
+theorem list_after_st (n : Nat) (rest : List Item) (g : Nat) (t : St) (k : Nat)
+    (h : (execList g t (.mk (.mk false [.st n]) [] :: rest)).2 ≠ .outOfFuel) :
+    execList g { t with status := k } (.mk (.mk false [.st n]) [] :: rest) =
+      execList g t (.mk (.mk false [.st n]) [] :: rest) := by
+  match g with
+  | 0 => simp [execList] at h
+  | 1 => simp [execList, execItem] at h
+  | 2 => simp [execList, execItem, execPipeline] at h
+  | 3 => simp [execList, execItem, execPipeline, execCommands] at h
+  | 4 => simp [execList, execItem, execPipeline, execCommands, execCmd, pollWith] at h
+  | g+5 => simp only [execList, execItem, execPipeline, execCommands, execCmd]; rfl
+
 end YashModel.Exec
